@@ -25,6 +25,12 @@ from ..controls import Control
 from ..mutate import in_func, in_module, chain
 
 M = "autoarray.inversion.pixelization.mesh.mesh_util"
+EXEMPT_ENTRY_WRITES: Dict[str, str] = {
+    "autoarray.numba_util:profile_func.<locals>.wrapper": "records a timing in the object's run_time_dict (not a reported quantity)",
+    "autoarray.inversion.linear_obj.neighbors:Neighbors.__new__": "ndarray subclass construction (sets attributes on the new view)",
+    "autoarray.structures.arrays.array_2d_util:replace_noise_map_2d_values_where_image_2d_values_are_negative": "documented in-place utility on a noise map; not called anywhere in the library",
+    "autoarray.util.cholesky_funcs:cholinsert": "rank-one insertion utility working on the factor it is given; not called anywhere in the library (the solver uses cholinsertlast)",
+}
 ALLOWED_MUTATORS: Dict[str, str] = {
     f"{M}:rectangular_corner_neighbors": "fills the neighbors / sizes tables its caller rectangular_neighbors_from allocated",
     f"{M}:rectangular_top_edge_neighbors": "same",
@@ -143,15 +149,7 @@ def rule_writes(ctx, E: effect.Effects):
             where = f"{f.module.relpath}:{getattr(site.node, 'lineno', 0)}"
             inst = f"{f.key} writes {tagtext(tag)}"
             if tag[0] == "P":
-                if f.key in ALLOWED_MUTATORS and site.via is None:
-                    ctx.ob("C11.param", inst, True, detail=f"listed in-place helper: {ALLOWED_MUTATORS[f.key]}", nontrivial=False)
-                    continue
-                if site.via is not None and f.key in ALLOWED_MUTATORS:
-                    ctx.ob("C11.param", inst, True, detail=f"listed helper forwarding to listed helper {site.via}", nontrivial=False)
-                    continue
-                msg = (f"writes in place into its parameter `{tag[1]}` ({site.how}); the caller's object is modified" if site.via is None else
-                       f"hands its own parameter `{tag[1]}` to the in-place helper {site.via.split(':')[1]}; the caller's object is modified")
-                ctx.ob("C11.param", inst, False, where=f, node=site.node, construct=f"{tagtext(tag)} <- {norm_text(site.node)[:90]}", message=msg)
+                continue   # parameters are judged below, at the entry points (the write may sit in a helper several calls down)
             elif tag[0] == "C":
                 content = content_of_cached(E, f.cls if f.cls is not None and f.cls.lookup(tag[1]) is not None else None, tag[1])
                 evict = f.cls is not None and f.params and _evicted_after(f, site.node, tag[1])
@@ -163,7 +161,7 @@ def rule_writes(ctx, E: effect.Effects):
                     ctx.ob("C11.cached", inst, False, where=f, node=site.node, construct=f"{tagtext(tag)} may alias {tagtext(t0)} (from {m0.qualname})",
                            message=f"in-place update of the cached `{tag[1]}`, which {m0.qualname} may return as an alias of {tagtext(t0)}: evicting the cache entry does not undo the write into that storage")
                 else:
-                    ctx.ob("C11.cached", inst, False, where=f, node=site.node, construct=f"{tagtext(tag)} <- {norm_text(site.node)[:90]}",
+                    ctx.ob("C11.cached", inst, False, where=f, node=site.node, construct=f"{tagtext(tag)} written in place ({site.how.split(' (')[0]})",
                            message=f"writes in place into the value of cached property `{tag[1]}` ({site.how}); every later read of `{tag[1]}` reports the modified value")
             elif tag[0] == "SA":
                 if f.cls is None:
@@ -193,10 +191,50 @@ def rule_writes(ctx, E: effect.Effects):
                     else:
                         ctx.ob("C11.field", inst, True, detail=f"constructor fills storage allocated by the constructor chain ({where})")
                 else:
-                    ctx.ob("C11.field", inst, False, where=f, node=site.node, construct=f"{tagtext(tag)} <- {norm_text(site.node)[:90]}",
+                    ctx.ob("C11.field", inst, False, where=f, node=site.node, construct=f"{tagtext(tag)} written in place outside a constructor",
                            message=f"a non-constructor method writes in place into storage held in self.{tag[1]} ({site.how}); what the object (and whoever shares that storage) reports changes with the access history")
             elif tag[0] == "PL":
                 pass  # C15's concern
+    # in-place writes into (storage reachable from) a parameter: a helper may fill what its caller allocated, so the obligation travels up the call chain with the ownership tags
+    # and is judged where it cannot travel further - at an entry point: a public method / constructor of a class, a decorator's wrapper, or a function nobody in the project calls
+    n_entry = 0
+    # functions re-exported by the package's __init__ are entry points whoever else calls them
+    api = set()
+    try:
+        init_mod = ctx.p.module("autoarray")
+        for alias, target in init_mod.imports.items():
+            mod, _, nm = target.rpartition(".")
+            if mod in ctx.p.modules and nm in ctx.p.modules[mod].functions:
+                api.add(ctx.p.modules[mod].functions[nm].key)
+    except Exception:
+        pass
+    ctx.stats["C11.package-level API functions"] = len(api)
+    for f in E.funcs:
+        if not in_scope(f):
+            continue
+        ptags = {t: s_ for t, s_ in E.mut[f.key].items() if t[0] == "P"}
+        if not ptags or f.key in getattr(ctx.p, "inlined_keys", set()):
+            continue   # (a new private helper that was inlined into its callers is judged there)
+        callers = {k for k in E.callers.get(f.key, set()) if k != f.key}
+        public_method = f.cls is not None and (not f.name.startswith("_") or f.name in ("__init__", "__new__", "__call__", "__getitem__"))
+        entry = public_method or f.parent is not None or not callers or f.key in api
+        for tag, site in ptags.items():
+            n_sites += 1
+            inst = f"{f.key} writes {tagtext(tag)}"
+            # a parameter whose default is an instance created in the signature is shared by every call that omits it: writing it is a defect wherever it happens
+            dflt = f.defaults.get(tag[1])
+            shared_default = isinstance(dflt, ast.Call)
+            if not entry and not shared_default:
+                ctx.ob("C11.param", inst, True, detail=f"in-place helper: judged at its {len(callers)} caller(s)", nontrivial=False)
+                continue
+            n_entry += 1
+            if f.key in EXEMPT_ENTRY_WRITES:
+                ctx.ob("C11.param", inst, True, detail=EXEMPT_ENTRY_WRITES[f.key], nontrivial=False)
+                continue
+            chain = f" through {site.via.split(':')[1]}" if site.via else ""
+            ctx.ob("C11.param", inst, False, where=f, node=site.node, construct=f"{tagtext(tag)} written in place{chain}",
+                   message=f"writes in place into its parameter `{tag[1]}`{chain} ({site.how}); the caller's object is modified")
+    ctx.stats["C11.entry points that pass a parameter to an in-place write"] = n_entry
     ctx.stats["C11.functions analysed"] = n_funcs
     ctx.stats["C11.effect fixpoint rounds"] = E.rounds
     ctx.stats["C11.calls resolved"] = f"{E.calls_seen - E.unresolved}/{E.calls_seen}"
